@@ -81,6 +81,16 @@ impl<const N: usize> FixedRingBuffer<N> {
         }
     }
 
+    /// Returns the front (oldest) element without removing it, or None if empty.
+    #[inline]
+    fn front(&self) -> Option<u8> {
+        if self.count == 0 {
+            None
+        } else {
+            Some(self.data[self.head])
+        }
+    }
+
     /// Returns an iterator over the elements from oldest to newest.
     fn iter(&self) -> FixedRingBufferIter<'_, N> {
         FixedRingBufferIter {
@@ -159,8 +169,12 @@ impl RecentSnapshot {
         if self.starts_at_line_start {
             return (text, self.start_line);
         }
-        let rest = match text.find('\n') {
-            Some(nl) => text[nl + 1..].to_owned(),
+        // The partial line ends at the first line break: LF, CRLF or a lone CR.
+        let rest = match text.find(['\n', '\r']) {
+            Some(i) => {
+                let crlf = text[i..].starts_with("\r\n");
+                text[i + if crlf { 2 } else { 1 }..].to_owned()
+            }
             None => String::new(),
         };
         (
@@ -328,11 +342,18 @@ impl<R> RingReader<R> {
             if self.ring.len() == RING_BUFFER_SIZE {
                 let evicted = self.ring.pop_front();
                 self.ring_start_offset = self.ring_start_offset.saturating_add(1);
-                // Track newlines: if we evict a newline, increment the start line
-                if evicted == Some(b'\n') {
+                // Track line breaks: the evicted byte ended a line when it is LF, or a lone CR
+                // (YAML counts that as a line break too). The CR of a CRLF pair does not: the
+                // pair's LF, now the oldest byte, ends that line when it is evicted in turn.
+                // The byte after the evicted one is the ring's new front (`b` if the ring
+                // holds a single byte).
+                let next = self.ring.front().unwrap_or(b);
+                let ended_line =
+                    evicted == Some(b'\n') || (evicted == Some(b'\r') && next != b'\n');
+                if ended_line {
                     self.ring_start_line = self.ring_start_line.saturating_add(1);
                 }
-                self.ring_starts_line = evicted == Some(b'\n');
+                self.ring_starts_line = ended_line;
             }
 
             self.ring.push_back(b);
